@@ -174,6 +174,123 @@ def build():
          ],
          modifies=["self.registered_switches.**"], raises={})
 
+    # ------------------------------------------------------------------ Part B (bounded): removal
+    N = 3
+    TSH = TupleS(Fn, Int, Real, ntname="TimedSwitchHandler", fields=("callback", "state", "ms"))
+
+    def bounded_self(I, name):
+        """controller whose switch has N registered handlers per state and two pending deadlines of N timed
+        handlers each; every field of every entry is symbolic"""
+        o = Obj("SwitchController", ObjS("SwitchController", dict(_debug_to_console=Bool, _debug_to_file=Bool)), name)
+        return VObj(o)
+
+    def reg_bounded(I, name):
+        sw = I.force(I.frames[0].env["switch"]).ref
+        lists = [I.fresh(ListOf(ObjS("RegisteredSwitch", ms=Real, callback=Fn, cancelled=Bool), 2),
+                         "%s[sw][%d]" % (name, st)) for st in (0, 1)]
+        inner, ref = Ref(name + "[sw]"), Ref(name)
+        I.init_loc((inner, "$"), LConc(lists))
+        I.init_loc((ref, "$"), DConc(((sw, VList(inner)),)))
+        return VDict(ref)
+
+    def timed_bounded(I, name):
+        sw = I.force(I.frames[0].env["switch"]).ref
+        dl = []
+        for j, key in enumerate((1.5, 2.5)):
+            dl.append((key, I.fresh(ListOf(TSH, N), "%s[sw][t%d]" % (name, j))))
+        inner, ref = Ref(name + "[sw]"), Ref(name)
+        I.init_loc((inner, "$"), DConc(tuple(dl)))
+        I.init_loc((ref, "$"), DConc(((sw, VDict(inner)),)))
+        return VDict(ref)
+    BSELF = ObjS("SwitchController", registered_switches=Init(reg_bounded), _active_timed_switches=Init(timed_bounded),
+                 _debug_to_console=Bool, _debug_to_file=Bool)
+
+    def _match3(I, e, callback, state, ms):
+        e = I.force(e)
+        return z3.And(I.eq(e.items[1], state), I.eq(e.items[2], ms), I.eq(e.items[0], callback))
+
+    def timed_lists(I, heap):
+        this = I.frames[0].env["self"].ref
+        sw = I.force(I.frames[0].env["switch"]).ref
+        outer = heap.data[(I.force(I.read_field(this, "_active_timed_switches", heap=heap)).ref, "$")]
+        inner = outer.get(sw)
+        if inner is None:
+            return []
+        return [(k, heap.data[(I.force(v).ref, "$")].items) for k, v in heap.data[(inner.ref, "$")].entries]
+
+    def no_timed_match_left(I, callback, state, ms):
+        """no pending timed entry for (callback, state, ms) remains under any deadline"""
+        cs = []
+        for k, items in timed_lists(I, I.heap):
+            for e in items:
+                cs.append(_match3(I, e, callback, state, ms))
+        return VBool(z3.Not(z3.Or(cs + [z3.BoolVal(False)])))
+    C.helpers["no_timed_match_left"] = no_timed_match_left
+
+    def other_timed_kept(I, callback, state, ms):
+        """every pending timed entry that does not match is still there, in order"""
+        cs = []
+        new = dict(timed_lists(I, I.heap))
+        for k, items in timed_lists(I, I.old_heap):
+            left = list(new.get(k, ()))
+            # the remaining list must be the old one filtered: check by a symbolic merge over positions
+            pos = z3.IntVal(0)
+            for e in items:
+                m = _match3(I, e, callback, state, ms)
+                # e is kept => it is at position pos of the new list
+                at = z3.Or([z3.And(pos == j, I.eq(I.force(e), I.force(left[j]))) for j in range(len(left))] +
+                           [z3.BoolVal(False)])
+                cs.append(z3.Implies(z3.Not(m), at))
+                pos = z3.If(m, pos, pos + 1)
+        return VBool(z3.And(cs + [z3.BoolVal(True)]))
+    C.helpers["other_timed_kept"] = other_timed_kept
+
+    def reg_lists(I, heap):
+        this = I.frames[0].env["self"].ref
+        sw = I.force(I.frames[0].env["switch"]).ref
+        outer = heap.data[(I.force(I.read_field(this, "registered_switches", heap=heap)).ref, "$")]
+        pair = heap.data[(outer.get(sw).ref, "$")].items
+        return [heap.data[(I.force(p).ref, "$")].items for p in pair]
+
+    def no_registered_match_left(I, callback, state, ms):
+        cs = []
+        st = I.force(state).t
+        for idx, items in enumerate(reg_lists(I, I.heap)):
+            for e in items:
+                o = I.force(e).ref
+                cs.append(z3.And(st == idx, I.eq(I.read_field(o, "ms"), ms), I.eq(I.read_field(o, "callback"), callback)))
+        return VBool(z3.Not(z3.Or(cs + [z3.BoolVal(False)])))
+    C.helpers["no_registered_match_left"] = no_registered_match_left
+
+    def removed_marked_cancelled(I, callback, state, ms):
+        """every entry that was registered for (callback, state, ms) is flagged cancelled, so a dispatch that
+        already snapshotted the list skips it"""
+        cs = []
+        st = I.force(state).t
+        for idx, items in enumerate(reg_lists(I, I.old_heap)):
+            for e in items:
+                o = I.force(e).ref
+                m = z3.And(st == idx, I.eq(I.read_field(o, "ms", heap=I.old_heap), ms),
+                           I.eq(I.read_field(o, "callback", heap=I.old_heap), callback))
+                cs.append(z3.Implies(m, I.truth(I.read_field(o, "cancelled"))))
+        return VBool(z3.And(cs + [z3.BoolVal(True)]))
+    C.helpers["removed_marked_cancelled"] = removed_marked_cancelled
+
+    C.fn("SwitchController.remove_switch_handler_obj",
+         params=dict(self=BSELF, switch=SWITCH, callback=Fn, state=Int, ms=Real),
+         requires=[("state is 0/1", "state == 0 or state == 1")],
+         ensures=[
+             ("a removed handler is no longer registered", "no_registered_match_left(callback, state, ms)"),
+             ("and is flagged cancelled for dispatches in progress", "removed_marked_cancelled(callback, state, ms)"),
+             ("a removed handler never fires: no pending timed entry of it remains under any deadline",
+              "no_timed_match_left(callback, state, ms)"),
+             ("other pending timed entries are untouched", "other_timed_kept(callback, state, ms)"),
+         ],
+         modifies=["self.registered_switches.**", "self._active_timed_switches.**"], raises={},
+         bounded="2 registered handlers per state, two deadlines with 3 timed entries each; entry fields symbolic")
+    C.bounded = ["SwitchController.remove_switch_handler_obj: 2 registered handlers per state and two deadlines with "
+                 "%d timed entries each; all entry fields symbolic (list lengths are the bound)" % N]
+
     C.assume("A-ASYNCIO: clock.get_time() is the loop time; call_at fires once, not before its time")
     C.assume("A-FLOAT: times as reals")
     C.assume("switch objects have state/invert in {0,1} (set by the switch device and platform)")
